@@ -329,6 +329,8 @@ class Check(CheckBase):
                 mode = r.choice(['independent', 'shared', 'clone', 'shared'])
                 variant = copy.deepcopy(r.choice(ADD_KEY_VARIANTS))
                 pw = f'pw{i}'.encode() if r.random() < 0.8 else parent[2]      # sometimes the SAME password as the parent
+                if r.random() < 0.25:
+                    pw = f'long-{i}-'.encode() + r.randbytes(r.randint(60, 120))      # longer than any internal key-size limit
                 if session is None or r.random() < 0.5:
                     session = rep.new_repo(mk(), 2)
                 before = len(store.mutations)
@@ -351,7 +353,9 @@ class Check(CheckBase):
                                        'witness': {'mutations': [(m[1], m[2]) for m in store.mutations[before:]][:3]}})
             # unlock matrix in fresh objects + usability of every key
             for name, key, pw, how in keys:
-                for name2, _, pw2, _ in keys + [('wrong', None, b'definitely-wrong', '')]:
+                variants = [('prefix-64-of-' + name, None, pw[:64], ''), ('same-prefix-64-other-tail', None, pw[:64] + b'~' * max(len(pw) - 64, 1), '')] \
+                    if len(pw) > 64 else []
+                for name2, _, pw2, _ in keys + [('wrong', None, b'definitely-wrong', '')] + variants:
                     repo = rep.new_repo(mk(), 2)
                     try:
                         with rep.capture():
